@@ -18,7 +18,7 @@ Definition lex_obs_eqb (a b : option (str * str)) : bool :=
   | _, _ => false
   end.
 Definition run_lex (cases : list (str * option (str * str))) : list N :=
-  report lex_obs_eqb lex_str (fun _ => []) cases.
+  report lex_obs_eqb lex_lit (fun _ => []) cases.
 
 (* ---------- (ii) site numbers: 1 enum_value 2 meta_key 3 disc_prop 4 disc_value 5 query_key 6 header_key 7 media_type
    8 default 9 alias_doc 10 field_comment 11 wrapper_doc (block) 12 DocumentationWriter (relational) *)
@@ -36,10 +36,16 @@ Definition site_model_ok (c : site_case) : bool :=
   | None =>
       if n =? 11 then
         match aux with
-        | [pre; post] => str_eqb (site_block_doc pre post t) out && safe_doc_raw pre && isoq post
+        | [pre; post] => str_eqb (site_block_doc pre post t) out && safe_doc_raw pre
+                         && match post with sep :: post' => sep_ok sep && isoq post' | [] => false end
         | _ => false
         end
       else if n =? 12 then site_docwriter_rel (join t aux) out && safe_doc_raw (concat aux)
+      else if n =? 20 then   (* repr site: aux = [text before; text after; the non-ASCII characters of t that str.isprintable accepts] *)
+        match aux with
+        | [pre; post; table] => str_eqb (pre ++ site_media_repr (fun c => existsb (N.eqb c) table) t ++ post) out
+        | _ => false
+        end
       else if n =? 17 then   (* aux = [text before; text after; str.upper(t) as computed by Python] *)
         match aux with
         | [pre; post; up] => str_eqb (pre ++ site_enum_default_u up ++ post) out
@@ -51,21 +57,14 @@ Definition site_model_ok (c : site_case) : bool :=
 
 (* guard of site n on text t *)
 Definition site_safe (n : N) (t : str) : bool :=
-  if n <=? 4 then safe_dq_raw t
-  else if n <=? 7 then safe_dq_block t
-  else if n =? 8 then safe_default t
-  else if n =? 9 then safe_alias_doc t
-  else if n =? 10 then safe_field_comment t
-  else if n =? 16 then no_chars bad_raw t
-  else if (17 <=? n) && (n <=? 19) then safe_enum_default t
-  else safe_doc_raw t.
+  if (17 <=? n) && (n <=? 19) then safe_enum_default t
+  else if ((5 <=? n) && (n <=? 7)) || (n =? 20) then in_range t     (* ASCII-only escapers: every string *)
+  else scalar t.                                                     (* every other site: every Unicode scalar string *)
 (* finding bit of site n: 1 F15a enum  2 F15b Meta  3 F15c alias  4 F15d DocumentationWriter  5 F15e comment
    6 F15f query/header keys  7 F15g client docstring  8 F15h default  9 F15i discriminator  10 F15j media type
    11 F15k raw docstring templates (wrapper classes, overload docstring, tag docstrings) *)
-Definition site_finding (n : N) : N :=
-  if n =? 1 then 1 else if n =? 2 then 2 else if (n =? 3) || (n =? 4) then 9 else if (n =? 5) || (n =? 6) then 6
-  else if n =? 7 then 10 else if n =? 8 then 8 else if n =? 9 then 3 else if n =? 10 then 5 else if n =? 12 then 4
-  else if (n =? 15) || (n =? 16) then 7 else if (17 <=? n) && (n <=? 19) then 12 else 11.
+Definition site_finding (n : N) : N :=   (* only the enum-typed default (F15l, bit 12) is still open; F15a-k are fixed *)
+  if (17 <=? n) && (n <=? 19) then 12 else 0.
 Definition findings : list N := [1; 2; 3; 4; 5; 6; 7; 8; 9; 10; 11; 12].
 Definition guards_for (ns : list N) (t : str) : list bool :=
   map (fun j => forallb (fun n => negb (site_finding n =? j) || site_safe n t) ns) findings.
@@ -105,7 +104,9 @@ Definition site_pred (n : N) (t : str) : bool :=
       if n =? 12 then inert_doc_b (block_line (ws_to_sp t))
       else if n =? 13 then inert_doc_b (site_tag_doc t)
       else if n =? 15 then inert_doc_b (site_client_title [49;46;48] t)
-      else if n =? 16 then no_chars bad_raw t
+      else if n =? 16 then scalar t
+      else if n =? 20 then
+        match lex_lit (site_media_repr (fun _ => false) t) with Some (v, []) => str_eqb v t | _ => false end
       else if n =? 17 then   (* ASCII text: the attribute name is computed by the model; after the name only blanks or a comment *)
         let (nm, r) := span is_ident_char (site_enum_default t) in
         is_ident nm && match dropwhile (fun c => (c =? 32) || (c =? 9) || (c =? 12)) r with
